@@ -583,6 +583,31 @@ fn gen_factorize(ctx: &mut Ctx) {
         }
         n += 2;
     }
+    // Chernick Carmichael numbers (6k+1)(12k+1)(18k+1) with three large prime factors: a random
+    // Miller-Rabin base almost never shares a factor with them, so only the strong (square-root-of-1)
+    // part of the test can reject them; also 2 * such a number (left on the work stack as a cofactor)
+    {
+        let mut k = 1000u64;
+        let mut found = 0;
+        let want = ctx.pick(6, 40);
+        while found < want {
+            let (p, q, r) = (6 * k + 1, 12 * k + 1, 18 * k + 1);
+            if is_prime_u64(p) && is_prime_u64(q) && is_prime_u64(r) {
+                let n = big(p) * big(q) * big(r);
+                let exp = expected_of(&[big(p), big(q), big(r)]);
+                do_factorize(ctx, false, &n, &exp, vec![], None);
+                do_factorize(ctx, true, &n, &exp, vec![], None);
+                if found % 3 == 0 {
+                    let n2 = &n * 2;
+                    let exp2 = expected_of(&[big(2), big(p), big(q), big(r)]);
+                    do_factorize(ctx, false, &n2, &exp2, vec![], None);
+                    do_factorize(ctx, true, &n2, &exp2, vec![], None);
+                }
+                found += 1;
+            }
+            k += 1;
+        }
+    }
     // semiprimes p*q of growing size
     let maxbits = ctx.pick(32, 40) as u64;
     let per = ctx.pick(6, 15);
